@@ -202,6 +202,10 @@ def split_reward(t):
         rest = [x for x in t[1]]
         rest.remove(rew)
         return simp(("add", tuple(rest)))
+    if t[0] == "ite" and len(t) == 4:
+        a, b = split_reward(t[2]), split_reward(t[3])       # the reward is added on either path
+        if a is not None and b is not None:
+            return simp(("ite", t[1], a, b))
     return None
 
 
@@ -276,6 +280,22 @@ def r3_sweep(ctx, chk, rule="C02.3"):
             fo.term = unify(fo.term)
             F.effects = [tuple(unify(x) if isinstance(x, tuple) and x and isinstance(x[0], str) else x for x in e_) for e_ in F.effects]
     fields = [ER, EMR, ERM]
+    # `if not state.next_states: new = 0, 0, 0 else: new = state.value_iteration_rewards(..)`: the explicit form of what every
+    # kernel returns for a state without successors (C02.2 checks exactly that first return of each kernel)
+    from ..symx import subst as _subst, deep_simp as _deep_simp
+    ns_ = ("attr", st, "next_states")
+    nonempty_ = (("truthy", ns_), simp(("cmp", "!=", ("call", "len", (ns_,), ()), C(0))), simp(("cmp", "<", C(0), ("call", "len", (ns_,), ()))))
+
+    def _zero_shortcut(x):
+        if x[0] == "ite" and len(x) == 4 and x[1] in nonempty_ and is_const(x[3]) and x[3][1] == 0 and not isinstance(x[3][1], bool) \
+                and x[2][0] == "idx" and x[2][1][0] == "mcall" and x[2][1][1] == st and x[2][1][2] == "value_iteration_rewards":
+            return x[2]
+        return None
+    t2_ = _deep_simp(_subst(fo.term, _zero_shortcut))
+    if t2_ != fo.term:
+        fo.term = t2_
+        F.effects = [tuple(_deep_simp(_subst(x, _zero_shortcut)) if isinstance(x, tuple) and x and isinstance(x[0], str) else x for x in e_) for e_ in F.effects]
+        chk.note("%s: states without successors are given (0, 0, 0) directly in the sweep - what the kernels return for them" % rule)
     news = [simp(("idx", call, C(i))) for i in range(3)]
     diffs = [simp(("call", "abs", (mk_add(news[i], negate(("attr", st, fields[i]))),), ())) for i in range(3)]
     want = simp(("call", "max", tuple(diffs), ()))
@@ -580,6 +600,10 @@ def run(ctx, chk):
     # observed through the batch driver: run_games()[name]['rewards'] must be this game's, this mode's value
     from . import C12 as _C12
     _C12.observe(ctx, chk, "C02.obs", ['rewards'])
+    # the property speaks of every solve: nothing computed by one solve (a memo on the game object, on a class, in a module)
+    # may be handed to the next one - a second solve of the same object, or of another game, would report stale values
+    from . import C10 as _C10
+    _C10.r2_no_carried_state(ctx, chk, "C02.pre:C10.2")
     r5_no_stale_transition_cache(ctx, chk)
     shared.rule_no_sweep_memo(ctx, chk, "C02.5b")
     r1_pipeline(ctx, chk)
